@@ -17,10 +17,13 @@ BIG = 9.0e35
 FILL = -1.0e9
 
 
-def write_nc(path, nc):
+NC_FORMATS = ["NETCDF4", "NETCDF3_64BIT_OFFSET", "NETCDF4_CLASSIC", "NETCDF3_CLASSIC", "NETCDF3_64BIT_DATA"]
+
+
+def write_nc(path, nc, nc_format="NETCDF4"):
     import netCDF4
     import numpy as np
-    f = netCDF4.Dataset(path, "w", format="NETCDF4")
+    f = netCDF4.Dataset(path, "w", format=nc_format)
     nt, nl, ns = len(nc["time"]), len(nc["leadtime"]), len(nc["location"])
     f.createDimension("time", None)
     f.createDimension("leadtime", nl)
@@ -140,14 +143,15 @@ def _check_chunk(jobs):
         for p in (tpath, npath):
             if os.path.exists(p):
                 os.remove(p)
-        rep = {"kind": "ncfile", "text": text, "nc": obj["nc"], "expected": obj["input"], "gen": obj["gen"], "swapped_names": swap}
+        ncf = NC_FORMATS[idx % len(NC_FORMATS)]           # every on-disk flavour of NetCDF is a NetCDF file
+        rep = {"kind": "ncfile", "text": text, "nc": obj["nc"], "expected": obj["input"], "gen": obj["gen"], "swapped_names": swap, "nc_format": ncf}
 
         def bad(site, msg):
             divs.append((site, msg, rep))
         try:
             with open(tpath, "w") as f:
                 f.write(text)
-            write_nc(npath, obj["nc"])
+            write_nc(npath, obj["nc"], ncf)
             with quiet():
                 ti = verif.input.get_input(tpath)
                 ni = verif.input.get_input(npath)
